@@ -30,11 +30,37 @@ def run(ctx, rep):
     conv = r1(prog, ev, rep)
     if conv:
         r2_to_r5(prog, ev, rep, conv)
+    r6(ctx, rep)
+
+
+def r6(ctx, rep):
+    """reference(path) parses `path` with the library's own parser first: every Normalized Path must get through it"""
+    import os
+    from vflib import grammarmodel as GM, facts
+    from rules import grammar_common as G
+    rep.rule("C09-R6", "every Normalized Path of RFC 9535 2.7 (indices within the I-JSON range) is accepted by the library's parser "
+             "(grammar + post-checks), so that a path returned by a query can be handed to reference(): language inclusion "
+             "decided on the automata of the grammar analysis", floor=1)
+    try:
+        res = G.load(ctx)
+    except G.GrammarUnsupported as ex:
+        rep.unrecognised("C09-R6", "grammar", "-", str(ex)); return
+    where = os.path.relpath(ctx.grammar.path, facts.REPO)
+    cmp_ = [c for c in res["engine"]["compare"] if c["id"] == "np:normalized-path"]
+    if not cmp_:
+        rep.unrecognised("C09-R6", "comparison", where, "normalized-path comparison missing from the grammar analysis"); return
+    divs = GM.np_divergences(res)
+    for tags, cls, wit in sorted(set(divs)):
+        rep.bad("C09-R6", "np|%s|%s" % (tags, cls), where,
+                "the Normalized Path `%s` is rejected by the parser (at %s, symbol class %s): reference()/reference_mut() return None for "
+                "a node whose path a query has just returned" % (wit, tags, cls))
+    rep.ok("C09-R6", "compared:normalized-path", where, "%d x %d states, %d product states, %d rejected class(es)" % (
+        cmp_[0]["impl_states"], cmp_[0]["rfc_states"], cmp_[0]["product_states"], len(set(divs))))
 
 
 def r1(prog, ev, rep):
     rep.rule("C09-R1", "sibling agreement: reference and reference_mut are one term up to pointer/pointer_mut over one converter; "
-             "self is used once", floor=3)
+             "self is used once; an untranslatable path yields None", floor=5)
     rp = prog.impl_method(QT, VAL, "reference")
     mp = prog.impl_method(QT, VAL, "reference_mut")
     terms = {}
@@ -46,6 +72,30 @@ def r1(prog, ev, rep):
         good = len(lookups) == 1 and lookups[0].a[0] == want and lookups[0].a[1].k == "param" and lookups[0].a[1].a[0] == 0
         rep.check(good, "C09-R1", "%s/lookup" % name, prog.loc_of(p), want.rsplit("::", 1)[1] + "(self, ..)",
                   "%s does not resolve through exactly one self.%s(..): %s" % (name, want.rsplit("::", 1)[1], [str(x) for x in lookups]))
+        # a path that cannot be translated must yield None: the lookup's argument is the converter's Ok payload, never a
+        # value fabricated on the error side (unwrap_or*, a default, a literal)
+        if good:
+            arg = lookups[0].a[2]
+            chain = []
+            x = arg
+            okp = None
+            for _ in range(12):
+                if x.k == "call" and x.a[0] in prog.bodies and prog.items[x.a[0]]["kind"] == "Fn":
+                    okp = bool(chain) and any(c in ("try", "proj:Result::Ok.0", "proj:Option::Some.0") for c in chain)
+                    break
+                if x.k == "proj":
+                    chain.append("proj:" + x.a[1]); x = x.a[0]; continue
+                if x.k == "try":
+                    chain.append("try"); x = x.a[0]; continue
+                if x.k == "call" and len(x.a) == 2 and (x.a[0] in ("core::result::Result::<T, E>::ok", "alloc::string::String::as_str", "<alloc::string::String as core::ops::Deref>::deref",
+                                                                   "<alloc::string::String as core::convert::AsRef<str>>::as_ref", "<alloc::string::String as core::borrow::Borrow<str>>::borrow")):
+                    chain.append(x.a[0].rsplit("::", 1)[1]); x = x.a[1]; continue
+                chain.append("!" + (x.a[0] if x.k == "call" else x.k))
+                okp = False
+                break
+            rep.check(bool(okp), "C09-R1", "%s/error-is-none" % name, prog.loc_of(p), "lookup argument is the converter's Ok payload (%s)" % chain,
+                      "%s looks up a path even when the JSONPath could not be translated: the argument reaches the lookup through %s "
+                      "(a wildcard/slice/filter path or a malformed one then addresses some node - with an empty default the root - instead of None)" % (name, chain))
         # self used once
         def self_uses(root):
             n = 0
